@@ -2,7 +2,7 @@ SPECIFICATION Spec
 CONSTANTS
   Isas = {"x64"}
   MaxBlocks = 2
-  Templates = {"o23", "ret"}
+  Templates = {"o23", "ret", "z0"}
   Layouts = {"none", "one"}
   FnTables = {"present", "empty", "absent"}
   Names = {"fa"}
@@ -10,6 +10,7 @@ CONSTANTS
   EntModes = {"first"}
   EpChoices = {0}
   CfgModes = {"full"}
+  AddrModes = {TRUE}
   TgtChoices = {0}
   ScopeKinds = {"allblocks", "allfuncs", "single"}
   Positions = {"ENTRY", "ANYWHERE"}
